@@ -51,6 +51,17 @@ func (p Person) Upper() string { return strings.ToUpper(p.Name) }
 // PtrLen has a pointer receiver.
 func (p *Person) PtrLen() int { return len(p.Tags) }
 
+// Page has its include-naming fields promoted from an embedded struct.
+type PageMeta struct {
+	Sidebar string
+	Side2   string `liquid:"side"`
+}
+
+type Page struct {
+	PageMeta
+	Title string
+}
+
 // recA and recB return values of two DISTINCT struct types that print the same
 // type name (main.Rec) and map the property "name" to different fields.
 func recA(title, other string) any {
@@ -154,6 +165,8 @@ func (v *LV) Build(r *Rng) any {
 			return float32(v.F)
 		}
 		return v.F
+	case "page":
+		return Page{PageMeta: PageMeta{Sidebar: v.S, Side2: v.S}, Title: "t"}
 	case "rec":
 		if v.R == "b" {
 			return recB(v.S, "other-"+v.S)
